@@ -871,7 +871,7 @@ func runNet(n *nodeEnv, cs *Case) (res Result) {
 		cn = append(cn, k)
 	}
 	sort.Strings(cn)
-	res.Outcome = fmt.Sprintf("ban=%s why=%s mis=%d ver=%v b2g=%d [%s]", o.BanReason, strings.SplitN(o.WhyDisc, ":", 2)[0], o.Misbehave, o.VersionReceived, network.VerifB2GCount(), strings.Join(cn, " "))
+	res.Outcome = fmt.Sprintf("ban=%s why=%s mis=%d ver=%v b2g=%d bip=%d [%s]", o.BanReason, strings.SplitN(o.WhyDisc, ":", 2)[0], o.Misbehave, o.VersionReceived, network.VerifB2GCount(), o.BlocksInProgress, strings.Join(cn, " "))
 	if o.Ticks > 1+scriptedTicks {
 		res.Disturbed = true
 	}
